@@ -181,6 +181,203 @@ pub async fn fetch_{i}(items: Vec<String>) -> String {{
     data
 }}
 """
+# Name clashes across files.  The sequential run hands ONE rule instance all files, every parallel task builds fresh rules: any
+# per-instance table an analyzer forgets to reset between files (imported names, module aliases, compiled-pattern names, string
+# accumulators ...) makes the two runs differ.  "Introducer" modules put names into such tables; "user" modules use the SAME bare
+# names in another role (own functions / objects / numbers), in loops, without the imports.  Both kinds in either order.
+CLASH_PY_INTRO = [
+    """\"\"\"regex helpers {i}\"\"\"
+from re import match, search, sub, findall, split, fullmatch, finditer, subn
+
+
+def first_{i}(text):
+    return match("a+", text) or search("b+", text) or fullmatch("c+", text)
+""",
+    """\"\"\"patterns {i}\"\"\"
+import re
+import re as rx
+import re as regex
+
+PAT = re.compile("a+")
+WORD: object = rx.compile("[a-z]+")
+matcher = regex.compile("x")
+
+
+def scan_{i}(lines):
+    hits = []
+    for line in lines:
+        if PAT.match(line) or WORD.search(line) or matcher.findall(line):
+            hits.append(line)
+    return hits
+""",
+    """\"\"\"report {i}\"\"\"
+acc = ""
+out = f"{{acc}}"
+text: str = "t"
+total = 0
+rows = []
+seen = {{}}
+
+
+def render_{i}(items):
+    buf = ""
+    for item in items:
+        buf += str(item)
+    return buf
+""",
+]
+CLASH_PY_USER = [
+    """\"\"\"matching {i}\"\"\"
+
+
+def match(pattern, value):
+    return pattern == value
+
+
+def search(pattern, value):
+    return pattern in value
+
+
+def sub(a, b):
+    return a - b
+
+
+def findall(rows):
+    return list(rows)
+
+
+def split(row):
+    return [row]
+
+
+def pick_{i}(rows, wanted):
+    found = []
+    for row in rows:
+        if match(wanted, row) or search(wanted, row):
+            found.append(sub(len(row), 1))
+    while rows:
+        last = rows.pop()
+        found.extend(split(last))
+        found.extend(findall(last))
+    return found
+""",
+    """\"\"\"matcher objects {i}\"\"\"
+
+
+class Matcher{i}:
+    def match(self, value):
+        return value
+
+    def search(self, value):
+        return value
+
+    def findall(self, value):
+        return [value]
+
+
+rx = Matcher{i}()
+regex = Matcher{i}()
+PAT = Matcher{i}()
+WORD = Matcher{i}()
+matcher = Matcher{i}()
+
+
+def run_{i}(values):
+    kept = []
+    for value in values:
+        if rx.match(value) and regex.search(value) and PAT.search(value) and WORD.match(value) and matcher.findall(value):
+            kept.append(value)
+    return kept
+""",
+    """\"\"\"inline regex {i}\"\"\"
+import re as PAT
+import re as WORD
+import re as matcher
+
+
+def grep_{i}(lines):
+    kept = []
+    for line in lines:
+        if PAT.match("a+", line) or WORD.search("b+", line) or matcher.findall("c", line):
+            kept.append(line)
+    return kept
+""",
+    """\"\"\"totals {i}\"\"\"
+
+
+def sum_{i}(items, acc, out, text, buf):
+    total = ""
+    rows = ""
+    seen = ""
+    for item in items:
+        acc += item
+        out += item
+        text += item
+        buf += item
+        total += str(item)
+        rows += str(item)
+        seen += str(item)
+    return acc, out, text, buf, total, rows, seen
+""",
+    """\"\"\"counters {i}\"\"\"
+
+
+def count_{i}(items):
+    acc = 0
+    out = []
+    text = 0
+    buf = 0
+    for item in items:
+        acc += 1
+        out += [item]
+        text += len(item)
+        buf += 2
+    return acc, out, text, buf
+""",
+]
+CLASH_TS_INTRO = [
+    """// report {i}
+export function render{i}(items: string[]): string {{
+  let acc = "";
+  let text = '';
+  let buf = `b`;
+  for (const item of items) {{
+    acc += item;
+    text += item;
+    buf += item;
+  }}
+  return acc + text + buf;
+}}
+""",
+]
+CLASH_TS_USER = [
+    """// totals {i}
+export function sum{i}(items: number[], acc: number, text: number, buf: number): number {{
+  let total = 0;
+  for (const item of items) {{
+    acc += item;
+    text += item;
+    buf += item;
+    total += item;
+  }}
+  return acc + text + buf + total;
+}}
+""",
+    """// counters {i}
+export function count{i}(items: number[]): number {{
+  let acc = 0;
+  let text = 0;
+  let total = "";
+  while (items.length) {{
+    acc += items.pop();
+    text += 1;
+    total += "x";
+  }}
+  return acc + text + total.length;
+}}
+""",
+]
+
 # parents of the scratch project: plain, entries of the hard-coded exclusion table, test markers
 PARENTS = ["", "", "", "", "build", "dist", "venv", "node_modules", ".venv", "tests", "test", "htmlcov"]
 # root configuration files that say something the explicit configuration does not
@@ -215,6 +412,9 @@ def gen_case(seed: int, i, via: str = "api") -> dict:
     else:
         # every worker count 1..16 (and the default None), small pools more often: they keep the projects small
         k = r.choice([None, None] + list(range(1, 17)) + [1, 2, 2, 3, 3, 4, 4, 5, 6] * 2)
+    clash = via == "api" and r.random() < 0.4
+    if clash:
+        k = r.choice([1, 2, 2, 3, 3, 4])       # small pools: the project gets 4..9 extra modules and must stay above the threshold
     eff = k or min(8, cpu)   # only to place the file count around the threshold; the model computes its own from Gen
     n = max(0, 2 * eff + r.choice([-3, -1, -1, 0, 0, 0, 1, 1, 2, 5]))
     if via == "api" and r.random() < 0.03:
@@ -240,7 +440,7 @@ def gen_case(seed: int, i, via: str = "api") -> dict:
                     "content": copy.deepcopy(r.choice(ROOT_CONFIGS))}
     cmd = r.choice(["dry", "stringly-typed", "magic-numbers", "magic-numbers"]) if via == "cli" else None
     if via == "cli":
-        # explicit --config file (inside the project: the CLI takes its directory as the project root) or the root file alone;
+        # explicit --config file (inside the project; the project root is detected from the first target) or the root file alone;
         # `dry` reads --config through its own loader, so it is driven by the root file only
         config_via = "file" if (cmd != "dry" and (edge or r.random() < 0.5)) else "root"
         if cmd == "dry" and edge:
@@ -312,6 +512,38 @@ def gen_case(seed: int, i, via: str = "api") -> dict:
                 if alt is not None:
                     name = alt + base
         files.append([name, text])
+    if clash:
+        # name-clash modules at random positions: introducers before AND after their users
+        extra = []
+        for _ in range(r.choice([1, 2, 2, 3])):
+            extra.append(("py", r.choice(CLASH_PY_INTRO)))
+        for _ in range(r.choice([2, 3, 4])):
+            extra.append(("py", r.choice(CLASH_PY_USER)))
+        if r.random() < 0.6:
+            extra.append(("ts", r.choice(CLASH_TS_INTRO)))
+            for _ in range(r.choice([1, 2])):
+                extra.append(("ts", r.choice(CLASH_TS_USER)))
+        for lang, tmpl in extra:
+            j = len(files) + 100
+            sub = r.choice(["", "", "pkg/", "lib/"])
+            ext = lang if r.random() < 0.85 else lang.upper()
+            files.insert(r.randrange(len(files) + 1), [f"{sub}names_{j}.{ext}", tmpl.format(i=j)])
+    # .thailintignore files BELOW the root (a rule that anchors an ignore parser on the directory of the first file it sees reads them)
+    nested_ignores = []
+    if r.random() < 0.3:
+        for d_ in r.sample(["pkg", "pkg/inner", "lib"], r.choice([1, 1, 2])):
+            if any(rel.startswith(d_ + "/") for rel, _ in files):
+                nested_ignores.append([d_, r.sample(["mod_*", "*.py", "names_*", "sink_*", "tool_*", "*_1*", "*.ts"], r.choice([1, 2]))])
+    # symbolic links to files of the project, some inside a directory the root .thailintignore lists
+    symlinks = []
+    link_dir_ignored = False
+    if files and r.random() < 0.25:
+        link_dir = r.choice(["ign", "pkg/inner", "links"])
+        link_dir_ignored = r.random() < 0.7
+        for t_ in r.sample(range(len(files)), min(len(files), r.choice([1, 2, 3]))):
+            trel = files[t_][0]
+            suffix = ("." + trel.rsplit(".", 1)[-1]) if "." in trel.rsplit("/", 1)[-1] else ""
+            symlinks.append([f"{link_dir}/link_{t_}{suffix}", trel])
     # several targets on one command line (any set of files and directories): some top-level files, a sub-directory,
     # sometimes the whole project as well (overlapping targets are linted once per group, in both modes)
     targets = None
@@ -335,7 +567,10 @@ def gen_case(seed: int, i, via: str = "api") -> dict:
             "serve_seed": r.randrange(1 << 30) if (via == "api" and len(files) >= 2 and r.random() < 0.3) else None,
             # a .thailintignore at the project root (the ignore parser is a per-process singleton with a per-path cache)
             "ignore_file": ([f"*_{r.randrange(max(1, len(files)))}*"] + (["pkg/inner/"] if r.random() < 0.4 else []))
-            if r.random() < 0.25 else None}
+            if r.random() < 0.25 else None,
+            "nested_ignores": nested_ignores, "symlinks": symlinks, "clash": clash}
+    if symlinks and link_dir_ignored:
+        case["ignore_file"] = (case["ignore_file"] or []) + [symlinks[0][0].rsplit("/", 1)[0] + "/"]
     if via == "cli":
         case["cmd"] = cmd
     return case
@@ -403,6 +638,9 @@ def _norm(case: dict) -> dict:
     c.setdefault("serve_seed", None)
     c.setdefault("ignore_file", None)
     c.setdefault("targets", None)
+    c.setdefault("nested_ignores", [])
+    c.setdefault("symlinks", [])
+    c.setdefault("clash", False)
     return c
 
 
@@ -515,6 +753,14 @@ def run_impl(case: dict) -> dict:
                 (root / name).write_text(text)
             if case["ignore_file"]:
                 (root / ".thailintignore").write_text("\n".join(case["ignore_file"]) + "\n")
+            for d_, pats in case["nested_ignores"]:
+                (root / d_).mkdir(parents=True, exist_ok=True)
+                (root / d_ / ".thailintignore").write_text("\n".join(pats) + "\n")
+            for link, trel in case["symlinks"]:
+                lp = root / link
+                lp.parent.mkdir(parents=True, exist_ok=True)
+                if not lp.exists():
+                    os.symlink(os.path.relpath(root / trel, lp.parent), lp)
             cfg_arg = None
             if case["config_via"] == "file":
                 text = "# thai-lint configuration: built-in defaults\n" if case["config"] == {} else json.dumps(case["config"], indent=1) + "\n"
@@ -535,7 +781,9 @@ def run_impl(case: dict) -> dict:
             if case["via"] == "cli":
                 try:
                     from src.cli.utils import setup_base_orchestrator
-                    o0 = setup_base_orchestrator(list(targets), cfg_arg, False, Path(cfg_arg).resolve().parent if cfg_arg else None)
+                    # the command's own --config does not set the project root (only the root group's options do): the CLI hands
+                    # setup_base_orchestrator None and the root is detected from the FIRST target (markers above it, else that directory)
+                    o0 = setup_base_orchestrator(list(targets), cfg_arg, False, None)
                     proot, cfg = o0.project_root, o0.config
                 except BaseException as e:  # noqa: BLE001  (sys.exit included)
                     res["notes"].append(f"setup_base_orchestrator unavailable ({type(e).__name__}); using Orchestrator(project_root=target)")
@@ -572,7 +820,10 @@ def run_impl(case: dict) -> dict:
             elif entry == "dir":
                 paths = list(core._collect_files_fast(target, case["recursive"]))
             else:
-                paths = [(root / rel) if sp == "abs" else Path(rel) for rel, _ in case["files"]]
+                rels = [rel for rel, _ in case["files"]]
+                for n_, (link, _t) in enumerate(case["symlinks"]):      # the links are given explicitly too, between the files
+                    rels.insert(min(len(rels), 1 + 2 * n_), link)
+                paths = [(root / rel) if sp == "abs" else Path(rel) for rel in rels]
             res["files"] = [str(p) for p in paths]
             res["perfile"], res["errors"] = [], []
             for p in paths:
@@ -815,6 +1066,32 @@ def _eval_shards(workdir: Path, shards: list[str], threads: int = int(os.environ
     return results, errors
 
 
+JUDGE_FILES = ["Lib/Base.v", "Lib/GenTypes.v", "Model/OrchParTypes.v", "Gen/OrchParGen.v", "Model/OrchPar.v", "Model/OrchParRules.v",
+               "Model/OrchParRun.v", "Actual/OrchParActual.v"]
+
+
+def snapshot_judge_dir(wd: Path):
+    """When a translator item failed closed the models of the tree under test cannot be built and no case gets a Coq verdict.
+    Fallback (as in C04 / C19): a scratch copy of the judge's cone (models only, no proofs) with Gen taken from coq/Gen.expected,
+    the generated layer of the UNCHANGED tree.  Verdicts obtained this way say how the implementation under test differs from the
+    behaviour the theorems were proved about - they name concrete inputs; the broken obligations stay broken."""
+    import shutil
+    th = wd / "snap" / "theories"
+    for rel in JUDGE_FILES:
+        dst = th / rel
+        dst.parent.mkdir(parents=True, exist_ok=True)
+        src = (coq.COQ / "Gen.expected" / (Path(rel).name + ".txt")) if rel.startswith("Gen/") else (coq.COQ / "theories" / rel)
+        if not src.exists():
+            return None
+        shutil.copy(src, dst)
+    for rel in JUDGE_FILES:
+        pr = subprocess.run(["timeout", "600", "coqc", "-Q", str(th), "TL", "-w", "-notation-overridden", str(th / rel)],
+                            capture_output=True, text=True, cwd=str(th.parent))
+        if pr.returncode != 0:
+            return None
+    return th
+
+
 def judge(cases, impls, workdir: Path, per_shard=3):
     shards, index = [], []
     for s in range(0, len(cases), per_shard):
@@ -896,7 +1173,11 @@ def run(tier: str, seed: int, replay: str | None = None) -> int:
     chk = Check(PROP, tier, seed)
     chk.rule = ("seeded multi-language projects (every mapped extension .py/.ts/.tsx/.js/.jsx/.rs/.java/.go in lower, upper and mixed case, extensionless scripts with a python shebang, files of unknown type holding Python text; sub-directories; ordinary modules sharing function bodies (DRY) and string "
                 "sets (stringly-typed) or nothing, plus 'kitchen sink' files that give every registered linter a finding, including findings "
-                "equal in every field) under generated configurations: explicit (constructor / assigned like --config / --config file) "
+                "equal in every field; in 40% of the API cases 'name clash' modules at random positions: introducers that put names into per-file tables "
+                "of the analyzers (from re import ..., import re as alias, compiled patterns, string accumulators) and users of the SAME bare "
+                "names in another role, with small pools so that workers run - the sequential run shares one rule instance over all files, "
+                "every task builds fresh rules; .thailintignore files in sub-directories; symbolic links to project files, some inside an "
+                "ignored directory, given explicitly or found by the walk) under generated configurations: explicit (constructor / assigned like --config / --config file) "
                 "incl. the boundary values {} / comment-only file / unrelated sections, next to a differing root .thailint.yaml / "
                 ".thailint.json / pyproject.toml; ~10% invalid values that raise ValueError; max_workers 1..16 or None; file counts "
                 "2*workers-3 .. 2*workers+5; entry points lint_files[_parallel] and lint_directory[_parallel] (recursive or not); targets spelled "
@@ -937,6 +1218,18 @@ def run(tier: str, seed: int, replay: str | None = None) -> int:
         verdicts, errors = judge(cases, impls, wd)
         if errors:
             chk.broken.append(f"Model:evaluation of the orchestrator model failed on {len(errors)} shard(s) ({errors[0][:400]})")
+        if errors and all(v is None for v in verdicts):
+            th = snapshot_judge_dir(wd)
+            if th is not None:
+                old_th = coq.TH
+                coq.TH = th
+                try:
+                    verdicts, errors2 = judge(cases, impls, wd / "snapshot-judging")
+                    chk.notes.append("the models could not be built against the generated layer of this tree; the cases were judged against the models "
+                                     "built from coq/Gen.expected (the generated layer of the unchanged tree) to name concrete inputs"
+                                     + (f"; {len(errors2)} shard(s) failed there too" if errors2 else ""))
+                finally:
+                    coq.TH = old_th
     phases["coq_judge_s"] = round(time.time() - t0, 1)
     chk.extra_cov["phase_seconds"] = phases
     names = ["actual"] + [f"actual without {f}" for f in FLAGS] + ["ideal"]
@@ -967,6 +1260,9 @@ def run(tier: str, seed: int, replay: str | None = None) -> int:
                 chk.notes.append(f"case {case['i']}: {len(tpw)} worker processes served tasks, more than the {eff} the pool was given")
         chk.dist("targets:" + (f"{len(impl['groups'])} groups" if impl.get("groups") else "one"))
         chk.dist("crossfile_report:" + ("nonempty" if impl["rep_full"] else "empty"))
+        chk.dist("name_clash_modules:" + ("yes" if nc["clash"] else "no"))
+        chk.dist("nested_thailintignore:" + ("yes" if nc["nested_ignores"] else "no"))
+        chk.dist("symlinked_files:" + ("in ignored directory" if nc["symlinks"] and any((nc["ignore_file"] or []) and nc["symlinks"][0][0].startswith(p_.rstrip("/")) for p_ in (nc["ignore_file"] or [])) else "yes" if nc["symlinks"] else "no"))
         if any(not Path(rel).suffix and text.startswith("#!") and "python" in text.split("\n")[0] for rel, text in case["files"]):
             chk.dist("has_python_shebang_script:" + ("in_crossfile_report" if any(
                 not Path(v[1][1][1]).suffix for v in impl["rep_full"] if len(v) > 1 and v[1][1][0] in ("s", "p")) else "yes"))
@@ -1046,6 +1342,15 @@ def run(tier: str, seed: int, replay: str | None = None) -> int:
         if spec_ok:
             continue
         info["reason"] = "--parallel / lint_files_parallel result differs from the sequential result (multiset of violations, every field, or exit code)"
+        if not seq_ok or not rules_seq_ok:
+            # not a matter of the listed flags: the sequential side itself is not what fresh instances report
+            info["reason"] = ("--parallel / lint_files_parallel result differs from the sequential result, and the SEQUENTIAL result is not the union of "
+                              "the single-file results of fresh rule instances (+ finalize): in the sequential run one rule instance serves all files and "
+                              "carries state from one file to the next; the fresh instances every parallel task builds do not")
+            info["model_actual_matches_impl"] = cand[0]
+            info["model_ideal_matches_spec"] = ideal_ok
+            chk.violation(info)
+            continue
         relevant = [FLAGS[j] for j in range(len(FLAGS)) if not cand[1 + j]]
         if cand[0] and ideal_ok and not relevant:
             relevant = list(FLAGS)
